@@ -59,6 +59,14 @@ const indepLib = `  dA:
     cmds:
       - for: {var: S}
         cmd: 'printf "{{.K}}|fV|{{.ITEM}}\\n"'
+  gT:
+    cmds: ['printf "{{.K}}|gT|{{.G}}\\n"']
+  gU:
+    cmds: ['printf "{{.K}}|gU|{{.G}}\\n"']
+  gS:
+    cmds: ['printf "{{.K}}|gS|{{.GS}}\\n"']
+  gR:
+    cmds: ['printf "{{.K}}|gR|{{.GS}}\\n"']
 `
 
 func callYAML(c iCall, k string) string {
@@ -84,7 +92,7 @@ func indepTaskfile(prefix []iCall, target iCall, mode string) string {
 	if mode == "par" {
 		key = "deps"
 	}
-	return "version: '3'\nsilent: true\nvars:\n  L1: {map: ['1', '2']}\n  L2: {map: ['x']}\ntasks:\n  entry:\n    " + key + ": [" + strings.Join(items, ", ") + "]\n" + indepLib
+	return "version: '3'\nsilent: true\nvars:\n  L1: {map: ['1', '2']}\n  L2: {map: ['x']}\n  G: 'g-{{.TASK}}'\n  GS: {sh: 'echo s-{{.TASK}}'}\ntasks:\n  entry:\n    " + key + ": [" + strings.Join(items, ", ") + "]\n" + indepLib
 }
 
 func runIndep(content string) ([]string, error) {
